@@ -97,6 +97,7 @@ fn build_tree(root: &Path, t: &Tree) {
             gm::OddKind::LinkLoop => must(std::os::unix::fs::symlink(std::ffi::OsStr::from_bytes(&o.name), &p), "link", &p),
             gm::OddKind::LinkToFile => must(std::os::unix::fs::symlink("/etc/hostname", &p), "link", &p),
             gm::OddKind::ProcLink => must(std::os::unix::fs::symlink(proc_target(&o.name), &p), "link", &p),
+            gm::OddKind::BadUtf8Meta => must(std::fs::write(&p, gm::bad_utf8_content(&o.name)), "write", &p),
             gm::OddKind::EmptyDir => must(std::fs::create_dir(&p), "create", &p),
             gm::OddKind::IncompleteDir => {
                 must(std::fs::create_dir(&p), "create", &p);
@@ -223,6 +224,21 @@ fn check_tree(ev: &mut Ev, root: &Path, t: &Tree) -> CaseResult {
                             "{name:?}: read_metadata({:?}) returned {g:?}, the file {} holds {want:?}",
                             entry(i),
                             META_FILES[i]
+                        )
+                        .into());
+                    }
+                }
+                (None, got) if t.odd.iter().any(|o| o.kind == gm::OddKind::BadUtf8Meta && o.place.map(|k| t.dirs[k].name == name).unwrap_or(false) && o.name == META_FILES[i].as_bytes()) => {
+                    ev.count("metadata/read_not_utf8");
+                    // an error, or (a lenient reader) the lossy decoding of the
+                    // whole file - never a part of it
+                    let lossy = String::from_utf8_lossy(&gm::bad_utf8_content(META_FILES[i].as_bytes())).into_owned();
+                    if let Ok(g) = got.as_ref().map_err(|_| ()).and_then(|g| if *g == lossy { Err(()) } else { Ok(g.clone()) }) {
+                        return Err(format!(
+                            "{name:?}: read_metadata({:?}) returned {g:?} although {} is not UTF-8 (it holds {:?})",
+                            entry(i),
+                            META_FILES[i],
+                            String::from_utf8_lossy(&gm::bad_utf8_content(META_FILES[i].as_bytes())).chars().rev().take(12).collect::<String>().chars().rev().collect::<String>()
                         )
                         .into());
                     }
